@@ -1261,6 +1261,9 @@ def run(repo, chk, tier):
     from .c12_wigner import check_wigner
 
     check_wigner(repo, chk, tier)
+    from .c12_wigner import check_gather
+
+    check_gather(repo, chk)
     from .c12_coef import check_cg_coef
 
     check_cg_coef(repo, chk, tier, cg_sq)
